@@ -305,6 +305,16 @@ def show(e, depth=0):
         return "fn:%s" % e[1]
     if k == "str":
         return repr(e[1])
+    if k == "ld":
+        return show(e[2]) + ("" if e[1] == 0 else "'%d" % e[1])
+    if k == "tbl":
+        return "%s[%s]" % (show(e[1]), show(e[2]))
+    if k == "phi":
+        return "phi(%s)" % e[2]
+    if k == "callret":
+        return "ret:%s" % e[1].split("::")[-1]
+    if k == "zst":
+        return "()"
     return str(e)
 
 
@@ -344,6 +354,8 @@ def N(e):
     if not isinstance(e, tuple) or not e:
         return e
     k = e[0]
+    if k == "ld":
+        return e
     if k == "agg" and e[1] in NEWTYPES and len(e[3]) == 1:
         return N(e[3][0])
     if k == "field":
@@ -365,7 +377,8 @@ def N(e):
             return inner[1]
         return ("deref", inner)
     if k == "ref":
-        return ("ref", N(e[1]))
+        inner = N(e[1])
+        return ("ref", inner)
     if k == "bin":
         return norm_bin(e[1], N(e[2]), N(e[3]))
     if k == "un":
